@@ -109,10 +109,10 @@ def judge(st, case, r):
                     exp = exp[:k + 1]   # batches completed before the overflow (the k-th may or may not have run)
                     bounds = bounds[:k + 1]
                     st.inc("x_overflow_runs")
-                else:
-                    ambiguous_x = True
-                    st.inc("x_overflow_with_other_limit(not judged)")
-                break
+                    break
+                # The batch is already complete by -n/-L: the held-back argument is not *added* to it, so nothing overflows
+                # (GNU xargs dispatches a batch the moment -n/-L is reached). The run must go on.
+                st.inc("x_with_s_and_other_limit_binding_together")
     if want_fail or ambiguous_x:
         pass
     elif last[0] == "oversize":
@@ -252,7 +252,7 @@ def run(ctx):
                 "once), -x, -r; empty inputs; through the real xargs binary with the recorder as command; "
                 "distinct = (options, initial arguments, input bytes)")
     ctx.assumptions = ["reference tokenizer lib/xref.py", "inputs free of quotes/backslashes (C05 owns those)",
-                       "-x overflow that coincides with an -n/-L boundary is not judged"]
+                       "with -x, a batch that is already complete by -n/-L is not an -s overflow even if the next argument would not have fitted into it"]
     try:
         self_check()
     except AssertionError as e:
